@@ -10,13 +10,21 @@ import (
 // Explorer is the stateless depth-first search over choice sequences
 // (iterative preemption bounding when the unbounded space exceeds the budget).
 type Explorer struct {
-	Horizon  int
-	Quick    bool          // drop scheduling points before pure releases
-	Budget   int           // max executions per bound attempt (0 = unlimited)
-	Deadline time.Time     // wall-clock stop (zero = none); hitting it lowers coverage, never the verdict
-	MaxBound int           // highest preemption bound to try after an unbounded attempt failed
-	OnlyBound int          // >0: skip the unbounded attempt and enumerate exactly this preemption bound
-	Check    func(x *Exec) // oracle for one complete execution (must not retain x)
+	Horizon   int
+	Quick     bool          // drop scheduling points before pure releases
+	Budget    int           // max executions per bound attempt (0 = unlimited)
+	Deadline  time.Time     // wall-clock stop (zero = none); hitting it lowers coverage, never the verdict
+	MaxBound  int           // highest preemption bound to try after an unbounded attempt failed
+	OnlyBound int           // >0: skip the unbounded attempt and enumerate exactly this preemption bound
+	Check     func(x *Exec) // oracle for one complete execution (must not retain x)
+	// Stateful: keep a set of visited global states (threads' continuations, timers, the harness's
+	// KeyFn) and cut every execution that reaches a visited state beyond its replayed prefix. With
+	// driver threads that pick their next operation by Choose in an endless loop this explores the
+	// reachable state GRAPH of a protocol to a fixpoint instead of bounded scripts. Only meaningful
+	// unbounded (no preemption bound). Check is also called for cut executions (x.Pruned).
+	Stateful bool
+	States   int // distinct global states visited (stateful mode)
+	Cuts     int // executions cut at a visited state
 
 	// results
 	Execs       int
@@ -37,6 +45,21 @@ type frame struct {
 // Explore runs body under every schedule (within bounds) and calls Check on each.
 func (e *Explorer) Explore(body func()) {
 	e.BoundDone = -1
+	if e.Stateful {
+		seen := map[string]struct{}{}
+		pendingVisited = func(k string) bool {
+			if _, ok := seen[k]; ok {
+				return true
+			}
+			seen[k] = struct{}{}
+			return false
+		}
+		defer func() { pendingVisited, pendingKeyFn = nil, nil; e.States = len(seen) }()
+		if e.runBound(-1, body) {
+			e.Complete = true
+		}
+		return
+	}
 	if e.OnlyBound > 0 {
 		if e.runBound(e.OnlyBound, body) {
 			e.BoundDone = e.OnlyBound
@@ -91,6 +114,9 @@ func (e *Explorer) runBound(bound int, body func()) bool {
 		}
 		if pre > e.MaxPreempt {
 			e.MaxPreempt = pre
+		}
+		if x.Pruned {
+			e.Cuts++
 		}
 		e.LastChoices = choices
 		if e.Check != nil {
